@@ -275,7 +275,8 @@ def _ctor_float(x=0.0):
         if FLOAT_HOOK[0] is None:
             raise Unsupported('float() of a symbolic string')
         return FLOAT_HOOK[0](lift(x))
-    if FLOAT_HOOK[0] is not None and isinstance(x, str):
+    if FLOAT_HOOK[0] is not None and isinstance(x, (str, int)) and \
+            not isinstance(x, bool):
         r = FLOAT_HOOK[0](x)
         if r is not NotImplemented:
             return r
